@@ -102,6 +102,8 @@ func checkC18(c *Ctx, r *Report) {
 					"cells are decoded like the driver decodes them: error → nothing, accept → accepting state, d ≥ 0 → edge to state d labelled with the column's symbol, d < 0 → reduce by rule −d on that symbol", bad)
 			}
 		}
+		// the reduce annotations collected for a state end up in that state's label
+		c18AnnotationsAttached(c, r, f, rows, cells)
 		// nodes for all states
 		c18NodePerState(c, r, f)
 	}
